@@ -12,11 +12,11 @@ SEAM = ("Trusted base: the harness seam (real SimApp wired by e2e.AppConfig, mes
 CHECKS = {
  "C19": ("model_checking",
          "explicit-state exhaustive search (depth-bounded DFS with canonical-state dedup) over the real record keeper on branched stores, append-only reference list compared in every state",
-         "Every sequence of <= depth create/multi-message/block operations by 2 creators over 2 contents is executed on the real message server; ids are checked unique along every path and every earlier record is re-read (contents, creator, tx hash) in every reached state; the Msg service descriptor is enumerated for other entry points.",
+         "Every sequence of <= depth create/multi-message/block operations by 2 creators over 2 contents is executed on the real message server; ids are checked unique along every path and every earlier record is re-read (contents, creator, tx hash) in every reached state; the Msg service descriptor is enumerated for other entry points. Every state also reads the ids known from other paths of the process (absent unless created on this path).",
          "DESIGN.md §3 C19"),
  "C05": ("model_checking",
          "explicit-state exhaustive search over stake/unstake/harvest/adjust/destroy/block sequences on the real farm keeper (branched stores, canonical-state dedup), with a full-withdrawal epilogue in every order evaluated in every reached state",
-         "All operation sequences up to the depth bound by 2-3 farmers and the creator over three pool configurations (1-2 reward denominations, future start, top-ups/rate changes/destroy, 10^18+1 stakes). In every state: sum of stakes = pool total, escrow = staked + undistributed budgets, and every farmer withdraws everything in every order on a throw-away branch - each withdrawal must succeed and pay stake + accrued.",
+         "All operation sequences up to the depth bound by 2-3 farmers and the creator over three pool configurations (1-2 reward denominations, future start, top-ups/rate changes/destroy, 10^18+1 stakes). In every state: sum of stakes = pool total, escrow = staked + undistributed budgets, and every farmer withdraws everything in every order on a throw-away branch - each withdrawal must succeed and pay stake + accrued. Two variants start from a genesis whose creation fee does not split evenly at the tax rate; the escrow equality covers every denomination the farm account holds.",
          "DESIGN.md §3 C05"),
  "C06": ("model_checking",
          "explicit-state exhaustive search as C05 with an exact big.Rat reference model of per-block release and stake-weighted entitlement carried along every path and compared in every reached state",
@@ -24,7 +24,7 @@ CHECKS = {
          "DESIGN.md §3 C06"),
  "C01": ("model_checking",
          "exhaustive enumeration of the price functions over a finite input lattice (all small triples, powers of two +-1 up to 2^128, 5 boundary fees) plus explicit-state exhaustive search over swap/add/remove/one-sided/donate/fee-change sequences on the real coinswap keeper, invariant recomputed from observed balances in exact integers",
-         "Kernel: every (amount, reserve_in, reserve_out, fee) in the lattice checked against the fee-inclusive constant-product inequality, maximality of the received amount and minimality+1 of the paid amount. Search: every operation sequence up to the depth bound on two pools (small non-round reserves and reserves near 2^127): after every successful message S'T'L^2 >= STL'^2 per pool and the fee rule per swap leg from observed reserve deltas.",
+         "Kernel: every (amount, reserve_in, reserve_out, fee) in the lattice checked against the fee-inclusive constant-product inequality, maximality of the received amount and minimality+1 of the paid amount. Search: every operation sequence up to the depth bound on two pools (small non-round reserves and reserves near 2^127): after every successful message S'T'L^2 >= STL'^2 per pool and the fee rule per swap leg from observed reserve deltas. Orders from a denomination to itself are in the alphabet; an executed one is judged leg by leg from the bank transfer events of the message.",
          "DESIGN.md §3 C01"),
  "C02": ("model_checking",
          "explicit-state exhaustive search over swap/liquidity message sequences with a full balance-sheet oracle (all accounts of the universe + supply per denom) and a differential bound oracle (amounts learned on a throw-away branch, then bounds set exact / off by one)",
@@ -32,11 +32,11 @@ CHECKS = {
          "DESIGN.md §3 C02"),
  "C03": ("model_checking",
          "explicit-state exhaustive search over create/claim/block/jump-to-expiry sequences on the real HTLC keeper with a contract-status reference model and a full balance-sheet oracle per message and per begin-block",
-         "Every sequence up to the depth bound of creates (plain single/multi-coin, duplicate ids, timestamped hash locks, incoming/outgoing cross-chain), claims (right / wrong secret, on open / completed / refunded contracts) and block steps around the expiration height (several contracts expiring at one height): state only moves open->completed|refunded, funds move exactly once and only as the property says, refunds happen exactly in the begin-block of the expiration height with one event each, escrow = open contracts.",
+         "Every sequence up to the depth bound of creates (plain single/multi-coin, duplicate ids, timestamped hash locks, incoming/outgoing cross-chain), claims (right / wrong secret, on open / completed / refunded contracts) and block steps around the expiration height (several contracts expiring at one height): state only moves open->completed|refunded, funds move exactly once and only as the property says, refunds happen exactly in the begin-block of the expiration height with one event each, escrow = open contracts. Two further parts add restart-from-genesis (export, validation, emptied stores, InitGenesis) as an operation; the reference forgets closed contracts, which the export drops by design.",
          "DESIGN.md §3 C03"),
  "C04": ("model_checking",
          "explicit-state exhaustive search as C03 with two time-limited assets, block-time steps that straddle the limit period, and counters recomputed from the HTLC queries and an independent tumbling-window reference",
-         "In every reached state: escrow = open ordinary + open outgoing; per asset incoming/outgoing counters = sums over open transfers; current = minted - burned = bank supply; current + incoming <= limit; amount completed inside one reference window <= time-based limit (two assets with different periods, so cross-asset interference in the window reset is visible).",
+         "In every reached state: escrow = open ordinary + open outgoing; per asset incoming/outgoing counters = sums over open transfers; current = minted - burned = bank supply; current + incoming <= limit; amount completed inside one reference window <= time-based limit (two assets with different periods, so cross-asset interference in the window reset is visible). A part imports the exported genesis of a reachable state broken in exactly one way per case (four cases) and requires the import to refuse it; two parts add restart-from-genesis as an operation.",
          "DESIGN.md §3 C04"),
  "C15": ("model_checking",
          "explicit-state exhaustive search over issue/mint/edit/transfer/burn/transfer-class sequences with boundary uint64 amounts on the real MT keeper, exact big-integer reference ledger compared through every query after every message",
@@ -44,11 +44,11 @@ CHECKS = {
          "DESIGN.md §3 C15"),
  "C20": ("exploration",
          "exhaustive enumeration over all .proto files / descriptors of both generated families linked into one binary, and over a descriptor-driven bounded value space per message (round trips in both directions); every generated client stub method of both families called once on a recording connection",
-         "All 55 proto files, 318 messages, 22 services: inventory in both registries, structural descriptor comparison incl. options (file-level generator options aside), 6.7k cross-family encode/decode/re-encode round trips, and for every Msg request type: registered as sdk.Msg, signer option names an existing string field from which a signer address can be extracted; all 240 client stub methods ask for the route /<service>/<method> of their own service.",
+         "All 55 proto files, 318 messages, 22 services: inventory in both registries, structural descriptor comparison incl. options (file-level generator options aside), 6.7k cross-family encode/decode/re-encode round trips, and for every Msg request type: registered as sdk.Msg, signer option names an existing string field from which a signer address can be extracted; all 240 client stub methods ask for the route /<service>/<method> of their own service. The gogoproto Go value decoded in a round trip is also compared field by field, through the generated struct tags, with the api/ message.",
          "DESIGN.md §3 C20"),
  "C09": ("model_checking",
          "explicit-state exhaustive search over issue/edit/mint/burn/transfer-owner sequences by owner and stranger on the real token keeper (13 explorations: identity collisions, cap at scales 0/1/18, 9 fee-parameter sets), exact big-integer supply/burn reference compared through every query",
-         "Every sequence up to the depth bound: symbol and min unit unique forever (incl. the native token), only the current owner edits/mints/hands over, non-mintable never mints, supply <= max*10^scale after every success, an accepted edit never leaves the cap below circulation, burn tally exact, fee = fee-pool part + burned part with an empty module account for tax and mint-ratio in {0,0.4,1}.",
+         "Every sequence up to the depth bound: symbol and min unit unique forever (incl. the native token), only the current owner edits/mints/hands over, non-mintable never mints, supply <= max*10^scale after every success, an accepted edit never leaves the cap below circulation, burn tally exact, fee = fee-pool part + burned part with an empty module account for tax and mint-ratio in {0,0.4,1}. One variant starts from a genesis that lists a token without an owner: every owner-only message on it must fail.",
          "DESIGN.md §3 C09"),
  "C07": ("model_checking",
          "explicit-state exhaustive search over call/respond/withdraw/bind-update-disable-enable-refund/block sequences on the real service keeper with a relational balance-sheet oracle per message and per end-block and conservation invariants in every state",
@@ -64,7 +64,7 @@ CHECKS = {
          "DESIGN.md §3 C14"),
  "C16": ("model_checking",
          "exhaustive enumeration of boundary parameter sets (single-field deviations, pairs among fee/tax fields, full product for small modules) crossed with senders, genesis import and the module's operation menu, each executed on the real application on its own state branch",
-         "For coinswap, farm, htlc, service, token: every parameter set of the lattice is sent by the authority and by a stranger and pushed through genesis validation/import - stored iff authority and the module's Validate() accepts; under every accepted set every operation that succeeds under the defaults is run on a fork followed by two blocks - a panic in a handler or blocker that does not occur under the defaults is a violation.",
+         "For coinswap, farm, htlc, service, token: every parameter set of the lattice is sent by the authority and by a stranger and pushed through genesis validation/import - stored iff authority and the module's Validate() accepts; under every accepted set every operation that succeeds under the defaults is run on a fork followed by two blocks - a panic in a handler or blocker that does not occur under the defaults is a violation. Token: the base set carries a beacon address; the beacon field ranges over every accepted spelling.",
          "DESIGN.md §3 C16"),
  "C13": ("model_checking",
          "explicit-state exhaustive search with the HTLC, farm and service drivers in block-safety mode: recover() around every real begin/end blocker, due-processing oracles (refund exactly at expiry, pool refund exactly at end height, batches exactly on schedule) and raw-queue-versus-object hygiene evaluated in every reached state",
@@ -76,7 +76,7 @@ CHECKS = {
          "DESIGN.md §3 C17"),
  "C10": ("model_checking",
          "exhaustive enumeration of LossLessSwap over all scale pairs 0..18 x an input lattice x 8 ratios against exact rational arithmetic, plus explicit-state exhaustive search over ERC20 conversions (both directions, by min unit and by symbol, swap-to-native hook, ERC20 switch off/on, restart from exported genesis) with a store-backed fault-injecting EVM (<= 1 fault per conversion) and fee-token swaps at three ratios on the real token keeper",
-         "Kernel: 0 <= burned <= offered, minted*10^s_in <= burned*ratio*10^s_out, equality and unconvertible dust at ratio 1. Search: every conversion moves exactly the amount on both ledgers and keeps native+ERC20 supply constant; any failure (insufficient balance, blocked receiver, injected EVM call error / VM failure / wrong credited amount / balanceOf error) leaves both ledgers unchanged; fee swaps never burn more than offered, never mint more than worth, supplies move by exactly burned/minted, module account empty.",
+         "Kernel: 0 <= burned <= offered, minted*10^s_in <= burned*ratio*10^s_out, equality and unconvertible dust at ratio 1. Search: every conversion moves exactly the amount on both ledgers and keeps native+ERC20 supply constant; any failure (insufficient balance, blocked receiver, injected EVM call error / VM failure / wrong credited amount / balanceOf error) leaves both ledgers unchanged; fee swaps never burn more than offered, never mint more than worth, supplies move by exactly burned/minted, module account empty. The fee-swap registry is built once per application instance; one part issues the second fee token on the path with one of two scales.",
          "DESIGN.md §3 C10"),
  "C12": ("model_checking",
          "explicit-state exhaustive search with 15 module drivers (record, coinswap, farm x3, htlc x2, token, nft, mt x2, service, random, oracle x2; governance parameter changes offered as operations) wrapped by a genesis round-trip oracle evaluated in every reached state at the block boundary: export -> module's own validation -> InitGenesis on a second application instance with emptied stores -> export again (byte fixpoint) -> first begin-block -> query comparison on the original object ids; second variant after the modules' prepare-for-zero-height step, with a census of durable objects before/after that step",
@@ -84,7 +84,7 @@ CHECKS = {
          "DESIGN.md §3 C12"),
  "C18": ("model_checking",
          "exhaustive enumeration of the PRNG over a lattice of block hashes, times, requesters and seeds in two evaluation orders, plus explicit-state exhaustive search over request (plain and oracle-seeded, intervals 0..3, two requesters, chains starting at height 1 and 253)/respond (valid, malformed, error)/block sequences on the real random+service keepers with a pending-set reference model compared through the queries in every state",
-         "Kernel: result in [0,1) with exactly 20 fractional digits, a function of its inputs only. Search: each request is fulfilled exactly once in the begin-block following height h+n (oracle requests when the seed arrives, never on a malformed seed or timeout), is absent from the pending queue afterwards, the stored number equals the PRNG of (previous app hash, block time, requester, seed) and reads back unchanged in every later state; several requests due at one height from two requesters and from one requester in different blocks are covered.",
+         "Kernel: result in [0,1) with exactly 20 fractional digits, a function of its inputs only. Search: each request is fulfilled exactly once in the begin-block following height h+n (oracle requests when the seed arrives, never on a malformed seed or timeout), is absent from the pending queue afterwards, the stored number equals the PRNG of (previous app hash, block time, requester, seed) and reads back unchanged in every later state; several requests due at one height from two requesters and from one requester in different blocks are covered. One part adds restart-from-genesis as an operation (the reference forgets stored numbers, which the export drops by design; waiting requests must still be served).",
          "DESIGN.md §3 C18"),
  "C11": ("model_checking",
          "explicit-state exhaustive search with 20 module drivers in which every transition is re-executed from the same pre-state on fresh application instances (state transplanted key by key = restart / other node) under deviating host clocks (+-7 min, +400 days, clock = block time) and map iteration orders (runtime seeds 1..7), both controlled through a build-time overlay of GOROOT's time and runtime packages; whole-application state hash, transaction result and exported genesis compared byte for byte; plus cross-process replicas: the enumerated op paths of every driver (length <= 4, first 1500) executed in three operating-system processes, one of them walking siblings in reverse order, digests of all stores and exports compared path by path",
